@@ -290,7 +290,14 @@ JudgeVerify(e) ==
         (* symbolic rendering of section 6.3 and the byte-level reference must agree on them        *)
         sym == IF "meta" \in DOMAIN e /\ "sym_accept" \in DOMAIN e.meta
                THEN CmpVal("symbolic_model_vs_reference", e.meta.sym_accept, exp) ELSE <<>>
-    IN  (IF anyPanic THEN <<Verdict("panic", want, e.panic)>> ELSE <<>>)
+        (* a triple made by another build with parameters beyond THIS build's height / Winternitz limits: the build may *)
+        (* verify it or refuse it - it may not crash, and it may not accept what the reference rejects (C14)          *)
+        relaxed == "meta" \in DOMAIN e /\ "relaxed_beyond_limits" \in DOMAIN e.meta
+    IN  IF relaxed THEN
+            (IF anyPanic THEN <<Verdict("panic", want, e.panic)>> ELSE <<>>)
+            \o (IF ~exp /\ \E i \in {1, 4, 5, 6, 7} : outcomes[i] = "ok" THEN <<Verdict("verify_outcome", "err", "ok")>> ELSE <<>>)
+        ELSE
+        (IF anyPanic THEN <<Verdict("panic", want, e.panic)>> ELSE <<>>)
         \o sym
         \o (IF e.res = "panic" THEN <<>> ELSE CmpVal("verify_outcome", want, e.res))
         \o entry("verify_vk_sig", e.vk_sig)
@@ -339,7 +346,15 @@ JudgeLoad(e) ==
 JudgeHook(e) ==
     CASE e.hook = "ots_params" ->
             (* the parameter table against the Appendix-B FORMULAS (never LsEff) *)
-            IF e.res # "ok" THEN <<Verdict("ots_params_missing", "ok", e.res)>>
+            (* RFC 8554 type codes must be known; for any OTHER code the table answers for, its entry must still be an *)
+            (* Appendix-B parameter set of this hash (n of the hash, w in {1,2,4,8}, p and ls by the formulas)            *)
+            IF e.type \notin OtsTypes THEN
+                (IF e.res # "ok" THEN <<>>
+                 ELSE IF e.w \notin {1, 2, 4, 8} \/ e.n # N(e.alg) THEN <<[kind |-> "ots_extra_type_bad_nw", exp |-> N(e.alg), got |-> e.n, type |-> e.type]>>
+                 ELSE CmpVal("ots_p", P(e.n, e.w), e.p)
+                      \o (IF e.ls = Ls(e.n, e.w) \/ e.ls = LsEff(e.n, e.w) THEN <<>>
+                          ELSE <<[kind |-> "ots_ls", exp |-> Ls(e.n, e.w), got |-> e.ls, n |-> e.n, w |-> e.w, type |-> e.type]>>))
+            ELSE IF e.res # "ok" THEN <<Verdict("ots_params_missing", "ok", e.res)>>
             ELSE LET n == N(e.alg) w == W(e.type) IN
                  CmpVal("ots_n", n, e.n) \o CmpVal("ots_w", w, e.w)
                  \o CmpVal("ots_p", P(n, w), e.p)
